@@ -213,6 +213,7 @@ def run_suite(copy):
     """The repository's own tests against the copy: (passed, failed)."""
     env = dict(os.environ)
     env.pop("PYTHONPATH", None)
+    env["TMPDIR"] = os.path.dirname(copy)  # the suite leaves temp files behind; keep them in the scratch dir
     p = subprocess.run([sys.executable, "-m", "pytest", "-q", "-p", "no:cacheprovider", "--no-header"], cwd=copy, env=env, capture_output=True, text=True, timeout=600)
     m = re.search(r"(\d+) passed", p.stdout)
     f = re.search(r"(\d+) failed", p.stdout)
